@@ -178,7 +178,7 @@ def run_shard(ctx):
     ws = real.Workspace()
     rng = ctx.rng
     fx = [f for f in objd.fixtures() if os.path.getsize(f) < 200_000]
-    n = ctx.share(1500, 40000)
+    n = ctx.share(1500, 100000)
     for k in range(n):
         r = rng.random()
         if r < 0.45:
